@@ -57,8 +57,10 @@ def gen_case(rng, car):
     if r < 0.82:      # factories: ones, zeros, rank-one tensors, meshgrid (the same vector object may serve several axes)
         k = rng.random()
         d = rng.choice([1, 2, 3, 4])
-        if k < 0.2: return Op("OOnes", [], [[rng.choice([1, 2, 3, 4]) for _ in range(d)]]), "factory:ones", None
-        if k < 0.4: return Op("OZeros", [], [[rng.choice([1, 2, 3, 4]) for _ in range(d)]]), "factory:zeros", None
+        if k < 0.12: return Op("OOnes", [], [[rng.choice([1, 2, 3, 4]) for _ in range(d)]]), "factory:ones", None
+        if k < 0.2: return Op("OOnes", [], [[rng.choice([1, 2, 3]) for _ in range(d)], [rng.choice([1, 2, 3, 4]) for _ in range(d)]]), "factory:ones-operator", None      # ones([(m1,n1),..]), rectangular
+        if k < 0.32: return Op("OZeros", [], [[rng.choice([1, 2, 3, 4]) for _ in range(d)]]), "factory:zeros", None
+        if k < 0.4: return Op("OZeros", [], [[rng.choice([1, 2, 3]) for _ in range(d)], [rng.choice([1, 2, 3, 4]) for _ in range(d)]]), "factory:zeros-operator", None
         vecs = [Dense(ttgen.rand_core(rng, (rng.choice([1, 2, 3, 4]),), cplx, -3, 3)) for _ in range(d)]
         if d >= 2 and rng.random() < 0.5:
             i, j = rng.sample(range(d), 2); vecs[j] = vecs[i]         # the same object on two axes
